@@ -176,6 +176,9 @@ class History:
         unspents = [Tx.TxOut(p.amount, p.spk) for p in self.puzzles]
         self.tx = Tx(rng.choice([1, 2]), ins, outs, rng.choice([0, 0, 17, 500000001]), unspents)
         self.hash_type = rng.choice([None, 1, 1, 2, 3, 0x81, 0x82, 0x83])
+        if self.fork[0] in ("bch", "btg") and rng.random() < 0.3:
+            # the caller may already include the fork-id bit in the requested type
+            self.hash_type = rng.choice([0x41, 0x42, 0x43, 0xc1, 0xc2, 0xc3])
         self.signed_keys = [set() for _ in self.puzzles]     # key indices that have signed each input so far
 
     # -- observation ---------------------------------------------------------------------------------
@@ -193,10 +196,34 @@ class History:
                          "witness": [bytes(w) for w in i.witness]} for i in t.txs_in],
                 "outs": [{"value": o.coin_value, "script": bytes(o.script)} for o in t.txs_out]}
 
+    def shared_checker_verdicts(self, flags, order):
+        """one SolutionChecker instance used for every input (the alternative public entry point to Tx.is_solution_ok,
+        which builds a fresh checker per call): verdicts must not depend on what the instance checked before"""
+        from pycoin.coins.SolutionChecker import ScriptError
+        sc = self.tx.SolutionChecker(self.tx)
+        out = {}
+        for i in order:
+            try:
+                sc.check_solution(sc.tx_context_for_idx(i), flags=flags)
+                out[i] = True
+            except ScriptError:
+                out[i] = False
+            except Exception as e:
+                out[i] = "EXC:%s" % type(e).__name__
+        self.rec.ev("SolutionChecker.check_solution(shared instance)", len(out))
+        return [out[i] for i in range(len(order))]
+
     def verdicts(self):
         """(pycoin verdict, reference verdict) per input under the standard flag set"""
         ref_tx = self.as_ref_tx()
         out = []
+        n = len(self.puzzles)
+        if n > 1:
+            fresh = [observe(self.tx.is_solution_ok, i, flags=self.flags)[1] for i in range(n)]
+            for order in (list(range(n)), list(range(n - 1, -1, -1))):
+                shared = self.shared_checker_verdicts(self.flags, order)
+                if shared != fresh:
+                    self.rec.violation("validity.shared_checker_instance_differs", self.case({"order": order}), shared, fresh)
         for i, p in enumerate(self.puzzles):
             st, ok = observe(self.tx.is_solution_ok, i, flags=self.flags)
             self.rec.ev("Tx.is_solution_ok")
@@ -226,7 +253,9 @@ class History:
         if self.hash_type is not None:
             kwargs["hash_type"] = self.hash_type
         if idx_set is not None:
-            kwargs["tx_in_idx_set"] = set(idx_set)
+            # any collection spelling of the index set, the empty one included
+            form = self.rng.choice([set, list, tuple, frozenset, sorted])
+            kwargs["tx_in_idx_set"] = form(idx_set) if idx_set else self.rng.choice([set(), [], (), frozenset(), range(0)])
         self.log.append({"keys": sorted(key_indices), "via": mechanism, "idx_set": sorted(idx_set) if idx_set is not None else None})
         if mechanism == "dict":
             lookup = net.tx.solve.build_hash160_lookup(secrets)
@@ -399,7 +428,7 @@ class History:
                         self.signed_keys[i] |= set(p.key_idx)
                     self.check_step(mid, set(range(n)), valid_now, "pass2")
         elif scenario == "idx_set":
-            asked = set(rng.sample(range(n), rng.randrange(1, n + 1)))
+            asked = set(rng.sample(range(n), rng.randrange(0, n + 1)))
             keys = {k for p in self.puzzles for k in p.key_idx}
             if self.sign_with(keys, mech, idx_set=asked):
                 for i in asked:
